@@ -5,6 +5,7 @@ C09 — Every dataloader worker gets its own reproducible augmentation stream.
 (transform / collator classes) are regenerated from /repo on every run.
 -/
 import KDVerif.Lemmas.SeedFlow
+import KDVerif.Lemmas.C07Extra
 import KDVerif.Gen.WrapperTable
 import KDVerif.Props.C07
 
@@ -67,5 +68,164 @@ example : conformsDS KDVerif.Gen.RngTable.table KDVerif.Gen.WrapperTable.layerRo
           (.multi "KDConcatDataset"
             (.cons (.root "KDDataset" .nil (.cons "collators" (.node "KDMixCollator" 2 .nil) .nil))
               (.cons (.root "KDDataset" .nil .nil) .nil)))))) = true := by decide +kernel
+
+/-! ## Gap theorems (audit round) -/
+
+/-- the stack of the examples with cell contents `a` (crop), `b` (mix collator) -/
+def exStack (a b : Nat) : DS :=
+  .wrap "ModeWrapper" .nil
+    (.wrap "XTransformWrapper" (.cons "transform" (.node "KDRandomCrop" a .nil) .nil)
+      (.wrap "KDSubset" .nil
+        (.multi "KDConcatDataset"
+          (.cons (.root "KDDataset" .nil (.cons "collators" (.node "KDMixCollator" b .nil) .nil))
+            (.cons (.root "KDImageFolder" (.cons "transform" (.node "KDRandomCrop" a .nil) .nil) .nil) .nil)))))
+
+/-- **clause "the same worker seed reproduces the same stream"**: two stacks with the same skeleton (same layer
+    classes, same transform / collator compositions; arbitrary, different generator-cell contents — e.g. the
+    copies two runs, or two epochs' freshly forked workers, hand to the hook) initialised under the same worker
+    seed (`base`, same derivation counter `k`) end up with, position by position, the same generator in every
+    reachable cell (transforms at any depth in any layer, collators), and derive the same number of generators.
+    Hypothesis: the stack is built from the tables (domain of the property); conformance of `d₂` follows. -/
+theorem same_worker_seed_same_cells (base k : Nat) (d₁ d₂ : DS) (hshape : eraseDS d₁ = eraseDS d₂)
+    (h₁ : conformsDS KDVerif.Gen.RngTable.table KDVerif.Gen.WrapperTable.layerRows d₁ = true) :
+    stackCells KDVerif.Gen.RngTable.table
+        (workerInit KDVerif.Gen.RngTable.table KDVerif.Gen.WrapperTable.layerRows base k d₁).1 =
+      stackCells KDVerif.Gen.RngTable.table
+        (workerInit KDVerif.Gen.RngTable.table KDVerif.Gen.WrapperTable.layerRows base k d₂).1 ∧
+    (workerInit KDVerif.Gen.RngTable.table KDVerif.Gen.WrapperTable.layerRows base k d₁).2 =
+      (workerInit KDVerif.Gen.RngTable.table KDVerif.Gen.WrapperTable.layerRows base k d₂).2 := by
+  have h₂ : conformsDS KDVerif.Gen.RngTable.table KDVerif.Gen.WrapperTable.layerRows d₂ = true := by
+    rw [← c07x_conformsDS_erase, ← hshape, c07x_conformsDS_erase]; exact h₁
+  have e₁ := c07x_workerInit_erase _ C07.table_ok _ layer_rows_ok base d₁ k h₁
+  have e₂ := c07x_workerInit_erase _ C07.table_ok _ layer_rows_ok base d₂ k h₂
+  rw [hshape] at e₁
+  exact ⟨e₁.2.symm.trans e₂.2, e₁.1.symm.trans e₂.1⟩
+
+example : eraseDS (exStack 1 2) = eraseDS (exStack 30 40) := by rfl
+example : conformsDS KDVerif.Gen.RngTable.table KDVerif.Gen.WrapperTable.layerRows (exStack 1 2) = true ∧
+    stackCells KDVerif.Gen.RngTable.table (exStack 1 2) = [1, 2, 1] ∧
+    stackCells KDVerif.Gen.RngTable.table
+      (workerInit KDVerif.Gen.RngTable.table KDVerif.Gen.WrapperTable.layerRows 1000 0 (exStack 30 40)).1 =
+      [1000, 1001, 1003] := by
+  refine ⟨?_, ?_, ?_⟩ <;> decide +kernel
+
+/-- the number of generators a worker derives is `numDerived` of the stack — a function of the layer table and
+    the stack's shape, not of the worker seed or of any cell content (all stacks, conforming or not) -/
+theorem derivation_count_closed_form (base k : Nat) (d : DS) :
+    (workerInit KDVerif.Gen.RngTable.table KDVerif.Gen.WrapperTable.layerRows base k d).2 =
+      k + numDerived KDVerif.Gen.WrapperTable.layerRows d :=
+  c07x_workerInit_count _ _ base d k
+
+/-- **clause "workers with different seeds never replay one another's stream, not even in part" — from the
+    named contract `DisjointFamilies` on the derivation function instead of the ad-hoc `hsep`**: let worker seed
+    `ws` derive the generators `base ws + 0, base ws + 1, …` (`get_rng_from_global` under the worker's NumPy
+    seed). If different worker seeds derive disjoint families (`DisjointFamilies base n`, the NumPy contract; `n`
+    at least the number of derivations `numDerived` of either stack), then for `ws₁ ≠ ws₂` no cell reachable in
+    worker 1 — nested ones included — holds a generator any cell of worker 2 holds. -/
+theorem workers_disjoint_of_contract (base : Nat → Nat) (n : Nat) (hcontract : DisjointFamilies base n)
+    (ws₁ ws₂ : Nat) (hne : ws₁ ≠ ws₂) (d₁ d₂ : DS)
+    (h₁ : conformsDS KDVerif.Gen.RngTable.table KDVerif.Gen.WrapperTable.layerRows d₁ = true)
+    (h₂ : conformsDS KDVerif.Gen.RngTable.table KDVerif.Gen.WrapperTable.layerRows d₂ = true)
+    (hn₁ : numDerived KDVerif.Gen.WrapperTable.layerRows d₁ ≤ n)
+    (hn₂ : numDerived KDVerif.Gen.WrapperTable.layerRows d₂ ≤ n) :
+    ∀ c₁ ∈ stackCells KDVerif.Gen.RngTable.table
+        (workerInit KDVerif.Gen.RngTable.table KDVerif.Gen.WrapperTable.layerRows (base ws₁) 0 d₁).1,
+    ∀ c₂ ∈ stackCells KDVerif.Gen.RngTable.table
+        (workerInit KDVerif.Gen.RngTable.table KDVerif.Gen.WrapperTable.layerRows (base ws₂) 0 d₂).1, c₁ ≠ c₂ := by
+  intro c₁ hc₁ c₂ hc₂
+  obtain ⟨j₁, _, hj₁, e₁⟩ := (worker_init_reseeds_everything (base ws₁) 0 d₁ h₁).2 c₁ hc₁
+  obtain ⟨j₂, _, hj₂, e₂⟩ := (worker_init_reseeds_everything (base ws₂) 0 d₂ h₂).2 c₂ hc₂
+  rw [derivation_count_closed_form] at hj₁ hj₂
+  rw [e₁, e₂]
+  exact hcontract ws₁ ws₂ hne j₁ j₂ (by omega) (by omega)
+
+/-- the contract is satisfiable: families laid out in blocks of `n` (`base ws = ws * n`) are disjoint -/
+theorem disjointFamilies_blocks (n : Nat) : DisjointFamilies (fun ws => ws * n) n := by
+  intro ws₁ ws₂ hne j₁ j₂ h₁ h₂ he
+  simp only at he
+  rcases Nat.lt_or_gt_of_ne hne with h | h
+  · have : (ws₁ + 1) * n ≤ ws₂ * n := Nat.mul_le_mul_right n h
+    rw [Nat.add_mul] at this; omega
+  · have : (ws₂ + 1) * n ≤ ws₁ * n := Nat.mul_le_mul_right n h
+    rw [Nat.add_mul] at this; omega
+
+/-- the ordering condition `hsep` of `workers_disjoint` is the special case of two seeds of a contract-abiding
+    derivation: from the contract and the closed-form count the disjointness follows without `hsep` — here
+    instantiated for two forked copies of the same stack and the block layout -/
+theorem workers_disjoint_blocks (ws₁ ws₂ : Nat) (hne : ws₁ ≠ ws₂) (d₁ d₂ : DS) (hshape : eraseDS d₁ = eraseDS d₂)
+    (h₁ : conformsDS KDVerif.Gen.RngTable.table KDVerif.Gen.WrapperTable.layerRows d₁ = true) :
+    let n := numDerived KDVerif.Gen.WrapperTable.layerRows d₁
+    ∀ c₁ ∈ stackCells KDVerif.Gen.RngTable.table
+        (workerInit KDVerif.Gen.RngTable.table KDVerif.Gen.WrapperTable.layerRows (ws₁ * n) 0 d₁).1,
+    ∀ c₂ ∈ stackCells KDVerif.Gen.RngTable.table
+        (workerInit KDVerif.Gen.RngTable.table KDVerif.Gen.WrapperTable.layerRows (ws₂ * n) 0 d₂).1, c₁ ≠ c₂ := by
+  intro n
+  have h₂ : conformsDS KDVerif.Gen.RngTable.table KDVerif.Gen.WrapperTable.layerRows d₂ = true := by
+    rw [← c07x_conformsDS_erase, ← hshape, c07x_conformsDS_erase]; exact h₁
+  have hcount : numDerived KDVerif.Gen.WrapperTable.layerRows d₂ = n := by
+    have := (same_worker_seed_same_cells 0 0 d₁ d₂ hshape h₁).2
+    rw [derivation_count_closed_form, derivation_count_closed_form] at this
+    omega
+  exact workers_disjoint_of_contract (fun ws => ws * n) n (disjointFamilies_blocks n) ws₁ ws₂ hne d₁ d₂ h₁ h₂
+    (Nat.le_refl _) (by omega)
+
+example : numDerived KDVerif.Gen.WrapperTable.layerRows (exStack 1 2) = 4 ∧
+    stackCells KDVerif.Gen.RngTable.table
+      (workerInit KDVerif.Gen.RngTable.table KDVerif.Gen.WrapperTable.layerRows (3 * 4) 0 (exStack 1 2)).1 =
+      [12, 13, 15] ∧
+    stackCells KDVerif.Gen.RngTable.table
+      (workerInit KDVerif.Gen.RngTable.table KDVerif.Gen.WrapperTable.layerRows (4 * 4) 0 (exStack 1 2)).1 =
+      [16, 17, 19] := by
+  refine ⟨?_, ?_, ?_⟩ <;> decide +kernel
+
+/-- **`hooks_reseed_unconditionally` connected to the model**: `workerInitGuarded th ch` is the hook chain in
+    which the transform hook (`th`) / collator hook (`ch`) re-seed only if the flag says "unconditionally" and are
+    skipped otherwise. With the flags as generated from /repo it is `workerInit` — on every stack. -/
+theorem guarded_init_is_workerInit (base k : Nat) (d : DS) :
+    workerInitGuarded KDVerif.Gen.WrapperTable.transformHookReseeds KDVerif.Gen.WrapperTable.collatorHookReseeds
+        KDVerif.Gen.RngTable.table KDVerif.Gen.WrapperTable.layerRows base k d =
+      workerInit KDVerif.Gen.RngTable.table KDVerif.Gen.WrapperTable.layerRows base k d := by
+  rw [hooks_reseed_unconditionally.1, hooks_reseed_unconditionally.2]
+  exact c07x_workerInitGuarded_true _ _ base d k
+
+/-- hence the re-seeding guarantee holds for the flag-reading chain -/
+theorem guarded_init_reseeds_everything (base k : Nat) (d : DS)
+    (hc : conformsDS KDVerif.Gen.RngTable.table KDVerif.Gen.WrapperTable.layerRows d = true) :
+    let r := workerInitGuarded KDVerif.Gen.WrapperTable.transformHookReseeds
+      KDVerif.Gen.WrapperTable.collatorHookReseeds KDVerif.Gen.RngTable.table KDVerif.Gen.WrapperTable.layerRows base k d
+    k ≤ r.2 ∧ ∀ c ∈ stackCells KDVerif.Gen.RngTable.table r.1, ∃ j, k ≤ j ∧ j < r.2 ∧ c = base + j := by
+  rw [guarded_init_is_workerInit]
+  exact worker_init_reseeds_everything base k d hc
+
+/-- the flags matter: were the transform hook conditional (`th = false`), the parent's generators `1` (crops)
+    would survive in the worker; were the collator hook conditional, the collator's `2` would -/
+example : stackCells KDVerif.Gen.RngTable.table
+      (workerInitGuarded false true KDVerif.Gen.RngTable.table KDVerif.Gen.WrapperTable.layerRows 1000 0 (exStack 1 2)).1 =
+      [1, 1000, 1] ∧
+    stackCells KDVerif.Gen.RngTable.table
+      (workerInitGuarded true false KDVerif.Gen.RngTable.table KDVerif.Gen.WrapperTable.layerRows 1000 0 (exStack 1 2)).1 =
+      [1000, 2, 1001] := by
+  constructor <;> decide +kernel
+
+/-- **`no_entropy_fallback` connected to the model**: `stackSources fallback` lists every source of random
+    decisions of a stack — the generator cells plus an OS-entropy source per layer whose class is in `fallback`.
+    With the list as generated from /repo, after the hook chain every source of every conforming stack is a
+    generator derived from this worker's seed during this initialisation. -/
+theorem every_source_derived_from_worker_seed (base k : Nat) (d : DS)
+    (hc : conformsDS KDVerif.Gen.RngTable.table KDVerif.Gen.WrapperTable.layerRows d = true) :
+    let r := workerInit KDVerif.Gen.RngTable.table KDVerif.Gen.WrapperTable.layerRows base k d
+    ∀ s ∈ stackSources KDVerif.Gen.RngTable.table KDVerif.Gen.WrapperTable.entropyFallbackClasses r.1,
+      ∃ j, k ≤ j ∧ j < r.2 ∧ s = StreamSrc.cell (base + j) := by
+  intro r s hs
+  rw [no_entropy_fallback, c07x_stackSources_nil, List.mem_map] at hs
+  obtain ⟨c, hcm, rfl⟩ := hs
+  obtain ⟨j, h1, h2, h3⟩ := (worker_init_reseeds_everything base k d hc).2 c hcm
+  exact ⟨j, h1, h2, by rw [h3]⟩
+
+/-- the list matters: a layer class listed as falling back to OS entropy contributes a source that no
+    initialisation derives -/
+example : StreamSrc.entropy ∈ stackSources KDVerif.Gen.RngTable.table ["XTransformWrapper"]
+      (workerInit KDVerif.Gen.RngTable.table KDVerif.Gen.WrapperTable.layerRows 1000 0 (exStack 1 2)).1 := by
+  decide +kernel
 
 end KDVerif.C09
